@@ -168,8 +168,10 @@ impl Check for C09 {
     }
     fn gen(&self, seed: u64, i: u64, tier: Tier) -> Value {
         let mut r = Rng::new(crate::harness::case_seed(seed, "C09", i));
-        let shape = SHAPES[(i % SHAPES.len() as u64) as usize];
-        let n = 2 + ((i / SHAPES.len() as u64) % 5) as usize; // 2..6
+        // every 17th world is one long chain of 14..18 types (deeper than any small constant)
+        let long_chain = i % 17 == 9;
+        let shape = if long_chain { "chain" } else { SHAPES[(i % SHAPES.len() as u64) as usize] };
+        let n = if long_chain { 14 + ((i / 17) % 5) as usize } else { 2 + ((i / SHAPES.len() as u64) % 5) as usize }; // 2..6
         let mut nm = Namer::new();
         let mut names: Vec<String> = (0..n).map(|_| nm.fresh(&mut r, "type")).collect();
         // names that extend one another (User / UserProfile) must occur in both roles
